@@ -28,7 +28,7 @@ class Res:
 
 def make(rng, i, samplers, cmp_samplers, allow_int_gather):
     """a random resource named r<i>; uses: list of statements; needs: sampler name it is paired with"""
-    n = "r%d" % i
+    n = rng.choice(["r%d", "r%d", "resBuf%d", "R%d", "colorTexture%d", "_r%d", "SHADOW%d", "r_%d_map"]) % i
     k = rng.randrange(9)
     if k == 0:
         t = rng.choice(["vec4<f32>", "f32", "mat4x4<f32>", "UB", "array<vec4<f32>, 4>", "vec3<u32>", "mat2x2<f32>"])
@@ -130,8 +130,8 @@ def program(rng, allow_int_gather=False):
     ngroups = rng.randint(1, 3)
     ns = rng.randint(0, 2)
     nc = rng.randint(0, 1)
-    samplers = ["smp%d" % i for i in range(ns)]
-    cmps = ["cmp%d" % i for i in range(nc)]
+    samplers = [rng.choice(["smp%d", "linearSampler%d", "Smp%d"]) % i for i in range(ns)]
+    cmps = [rng.choice(["cmp%d", "shadowSampler%d"]) % i for i in range(nc)]
     res = [Res(s, "var %s: sampler;" % s, [], tag="sampler") for s in samplers] + \
           [Res(s, "var %s: sampler_comparison;" % s, [], tag="sampler_cmp") for s in cmps]
     for i in range(nres):
